@@ -10,6 +10,7 @@ import Stab.Model.Status
 import Stab.Gen.Status
 import Stab.Lemmas.EngineGood
 import Stab.Lemmas.EngineFrozen
+import Stab.Lemmas.EngineCrash
 
 namespace Stab.Props.C06
 open Stab Stab.Status
@@ -127,6 +128,16 @@ theorem final_workflow_status_stays (c : Cfg) (hc : NoJumpCfg c) (ops1 ops2 : Li
   have hrun : run c (ops1 ++ ops2) = ops2.foldl (step c) (run c ops1) := by simp [run, List.foldl_append]
   rw [hrun]
   exact foldl_stable (wfFinal_stable _ h) c hc ops2 _ (run_good c hc ops1) rfl
+
+/-- **... and without the jump-free restriction**: for EVERY workflow (jump loops, OR-splits, suspends included) and every
+    operation list - kills after any commit, unacknowledged redeliveries, sweeps, a second worker's nested deliveries -
+    a workflow status that is final is never written again.  (Stage and task statuses can legitimately be re-armed by a
+    jump; the workflow's own final status cannot.)  Proof: `Lemmas/EngineCrash.lean`, from the shape of a partial delivery
+    and the fact that only StartWorkflow / CompleteWorkflow write the workflow status, both only while it is not final. -/
+theorem final_workflow_status_stays_always (c : Cfg) (ops1 ops2 : List Op)
+    (h : (run c ops1).wfStatus.isComplete = true) :
+    (run c (ops1 ++ ops2)).wfStatus = (run c ops1).wfStatus :=
+  Stab.Engine.final_wf_status_stays_always c ops1 ops2 h
 
 /-- every CompleteTask message that is ever queued carries a status RUNNING may legally move to, and no
     JumpToStage message exists when no script jumps -/
